@@ -1,28 +1,29 @@
 """C10 — point encodings round-trip and follow the SM9 byte formats (structural clauses)."""
 from core import report
 from core.sm9 import Repo
-from . import shared, layout, convert
+from . import shared, conv2
+
+
+ENCODERS = ["crate::fields::fq2::Fq2::to_slice", "crate::Fq2::to_slice", "crate::G1::to_slice", "crate::G2::to_slice", "crate::G1::to_uncompressed", "crate::G2::to_uncompressed",
+            "crate::G1::to_compressed", "crate::G2::to_compressed"]
 
 
 def run(ctx):
     rules = []
     for cfg in ("dev", "rel"):
         repo = Repo(ctx.facts(cfg))
-        ls = convert.make_lensim(repo)
-        r, got = layout.rule_layout("C10", repo, layout.std_tables(repo.P)[:1] + layout.point_tables())
+        cv = conv2.make_conv(repo)
+        r, got = conv2.rule_layout("C10", repo, cv, ENCODERS)
         r.rid += "[%s]" % cfg
         rules.append(r)
         if cfg == "dev":
-            rules.append(layout.rule_wrappers("C10", repo, [("crate::Fq2::to_slice", "crate::fields::fq2::Fq2::to_slice")]))
-            rules.append(layout.rule_prefix_fill("C10", repo))
-            rules.append(layout.rule_parity_encoder("C10", repo, ls))
-            rules.append(layout.rule_decoder_layout("C10", repo, ls))
-            rules.append(layout.rule_affine_first("C10", repo))
-            rules.append(convert.rule_parity_decoder("C10", repo, ls, {"crate::G1::from_compressed": 33, "crate::G2::from_compressed": 65}))
+            rules.append(conv2.rule_is_even("C10", repo, cv))
+            rules.append(conv2.rule_decoder_layout("C10", repo, cv))
+            rules.append(conv2.rule_parity_decoder("C10", repo, cv, {"crate::G1::from_compressed": 33, "crate::G2::from_compressed": 65}))
     return report.emit(
         "C10", ctx.tier, ctx.seed, rules, ctx.started,
-        "Layout extraction from the MIR of the six point encoders and of Fq2::to_slice (destination byte range → source component, exact tiling), comparison with the SM9 "
-        "layout table and with the decoders' ranges; every serialised coordinate comes from the affine conversion of self; prefix constants; parity bit evaluated for both "
-        "parities on the canonical (real part of) affine y, encoder and decoder truth tables.",
+        "Byte-provenance abstract execution of the six point encoders, Fq2::to_slice and the eight decoders: every emitted byte is byte k of the big-endian image of the "
+        "canonical value of the component the SM9 layout puts there (runs tile the output exactly, all from the affine conversion of self), tag byte 4 / 2+parity of the "
+        "canonical (real part of) affine y on every path; decoders read each component from the same byte range, most significant byte first; decoder parity selection.",
         shared.ASSUMPTIONS,
         ["that the affine conversion divides correctly (C15 decides its weight-homogeneity and None ⇔ z=0); coordinates below q follows from C07's canonical-representation invariant"])
